@@ -1343,7 +1343,6 @@ func (fe *FnEnc) fsPathObligations(st *State, callee *ssa.Function, args []RV, p
 	}
 }
 
-
 // stdlibNonNil: standard library functions whose first result is non-nil whenever the error result is nil
 // (or unconditionally, for functions without error result): documented behaviour, assumed.
 var stdlibNonNil = map[string]bool{
@@ -1374,7 +1373,6 @@ func (fe *FnEnc) nonNilOnSuccess(name string, sig *types.Signature, rets []RV) {
 	}
 	fe.emit("(assert " + nonNil + ")")
 }
-
 
 // notOwnErrors: an error returned by a function outside the module is none of the module's sentinel errors.
 func (fe *FnEnc) notOwnErrors(sig *types.Signature, rets []RV) {
